@@ -542,8 +542,8 @@ impl<'a> Ctx<'a> {
                     None => "",
                 };
                 let shell_missing = self.sc.cli.shell.is_none()
-                    && main.shell.as_deref().map(|s| !std::path::Path::new(s).exists()).unwrap_or(false)
-                    || self.sc.cli.shell.as_deref().map(|s| !std::path::Path::new(s).exists()).unwrap_or(false);
+                    && main.shell.as_deref().map(|s| !shell_exists(s)).unwrap_or(false)
+                    || self.sc.cli.shell.as_deref().map(|s| !shell_exists(s)).unwrap_or(false);
                 let bad_ref = main.prepend.iter().chain(main.append.iter()).any(|p| {
                     let full = format!("{}{}", dir, p);
                     match self.sc.docs.iter().find(|x| x.path == full) {
@@ -738,6 +738,54 @@ impl<'a> Ctx<'a> {
                         format!(
                             "test {} ended on its own with exit code {} at t={}ns, but {:?} was recorded (communication ended with {} at t={}ns)",
                             tj.nonce, code, p.exit.as_ref().unwrap().0, raw.exit, ce.2, ce.0
+                        ),
+                    ));
+                }
+            }
+        }
+        // what was captured of a command that was aborted is the beginning of what it wrote
+        for (d, j) in self.obs.docs.iter().zip(judgements.iter()) {
+            let main = &self.sc.docs[d.doc];
+            if self.script_mode(main) {
+                continue;
+            }
+            let list = exec_list(self.sc, main);
+            for (k, tj) in j.tests.iter().enumerate() {
+                let (Some(pid), Some(to)) = (tj.pid, d.tests.iter().find(|t| t.nonce == tj.nonce)) else {
+                    continue;
+                };
+                let Some(raw) = &to.raw else { continue };
+                if !matches!(raw.exit, ExitObs::Timeout { .. }) {
+                    continue;
+                }
+                let p = &self.facts.procs[pid as usize];
+                if !p.faults.is_empty() {
+                    continue;
+                }
+                let (td, t) = list[k];
+                let eff = self.sc.effective(main, td, t);
+                if eff.strip_ansi {
+                    continue;
+                }
+                let w = self.prog(&tj.nonce);
+                let (eo, ee) = expected_streams(&eff, &w);
+                let is_prefix = |got: &[u8], want: &[u8]| {
+                    // a CR whose LF has not been read yet is left as it is
+                    let g = if !eff.keep_crlf && got.last() == Some(&b'\r') { &got[..got.len() - 1] } else { got };
+                    want.len() >= g.len() && &want[..g.len()] == g
+                };
+                if !is_prefix(&raw.stdout.0, &eo) || !is_prefix(&raw.stderr.0, &ee) {
+                    out.push(v(
+                        "C13",
+                        "partial-capture-not-a-prefix",
+                        Some(&tj.nonce),
+                        format!(
+                            "test {} was aborted; captured stdout {:?} stderr {:?} is not the beginning of what the command wrote: stdout {:?} stderr {:?}",
+                            tj.nonce,
+                            raw.stdout,
+                            raw.stderr,
+                            Bytes(eo),
+                            Bytes(ee)
                         ),
                     ));
                 }
